@@ -125,6 +125,10 @@ Definition run (f : Z) (args : list Z) : list Z :=
   | 3, [sub] => let '(y, mo, dd, hh, mi, ss) := time_parts sub in [y; mo; dd; hh; mi; ss]
   | 10, _ => run_history args
   | 20, _ => run_live args
+  (* C13: re-opening a channel created with (n d fc sc) with parameters (n' d' fc' sc') *)
+  | 30, [n; d; fcs; scs; n'; d'; fcs'; scs'] =>
+      match open_writer (mkFs (mkCfg n d fcs scs) [] []) (mkCfg n' d' fcs' scs') with
+      | Some _ => [1] | None => [0] end
   | _, _ => [-999]
   end.
 
